@@ -384,6 +384,22 @@ fn main() {
             }
             0
         }
+        "stdout-probe" => {
+            // developer tool: is standard output really held while a C08 case runs?
+            let held = vcheck::props::c08::StdoutHeld::new();
+            let done = std::sync::Arc::new(std::sync::atomic::AtomicBool::new(false));
+            let d2 = done.clone();
+            std::thread::spawn(move || {
+                println!("from another thread");
+                d2.store(true, std::sync::atomic::Ordering::SeqCst);
+            });
+            std::thread::sleep(std::time::Duration::from_millis(500));
+            let during = done.load(std::sync::atomic::Ordering::SeqCst);
+            drop(held);
+            std::thread::sleep(std::time::Duration::from_millis(500));
+            eprintln!("printed while held: {during}; after release: {}", done.load(std::sync::atomic::Ordering::SeqCst));
+            0
+        }
         "lsp-probe" => {
             // developer tool: didOpen immediately followed by didChange and a request
             let n: usize = args.get(2).and_then(|s| s.parse().ok()).unwrap_or(2000);
